@@ -32,6 +32,7 @@ class Fn:
     preamble: str = ""                  # proof text inserted as first statement(s)
     epilogue: str = ""                  # R10: proof text after the body value is computed
     before_tail: str = ""               # R10: proof text placed just before the tail expression
+    no_ufcs: bool = False
     unroll: object = None               # R18: "all" or list of loop ordinals with constant bounds to unroll
     unroll_ty: object = "usize"         # type of the unrolled loop variable (or {ordinal: type})
     loops: dict = field(default_factory=dict)   # ordinal -> "invariant ..., decreases ..."
@@ -383,6 +384,15 @@ def build_fn(unit, item, imp, fnitem, spec: Fn, cover=False):
         if n:
             applied.append((rule, rx, f"{rp} x{n}"))
         sig, body = whole2.split("\x00")
+    # R21: operators on non-primitive operands -> the trait calls they desugar to
+    if getattr(unit, "ufcs", False) and not spec.no_ufcs:
+        from . import ufcs as _ufcs
+        try:
+            body, n21 = _ufcs.rewrite_body(body)
+        except _ufcs.Bail as e:
+            raise Unsupported(f"{spec.name}: R21 cannot parse body: {e}")
+        if n21:
+            applied.append(("R21", "a + b / a - b / a * b / a op= b", f"core::ops::<Trait>::<method>(a, b) x{n21}"))
     # R18: unroll constant-bound `for` loops (no invariant needed, so no reference to the body's locals)
     if spec.unroll:
         body = _unroll(unit, item, spec, body, applied)
@@ -519,7 +529,7 @@ use core::convert::{TryFrom, TryInto};
 """
 
 
-def build_unit(unit: Unit, cover=False, prelude_dir=None):
+def build_unit(unit: Unit, cover=False, prelude_dir=None, skip=()):
     """returns (text, meta) ; meta['modules'] maps module name -> item/fn metadata and line range"""
     prelude_dir = prelude_dir or os.path.join(os.path.dirname(os.path.dirname(__file__)), "preludes")
     parts = [HEADER, unit.uses, "\nverus! {\n"]
@@ -543,6 +553,11 @@ def build_unit(unit: Unit, cover=False, prelude_dir=None):
         s = src(item.file)
         modname = f"i{k}"
         k += 1
+        if modname in skip:
+            meta["modules"][modname] = dict(file=item.file, header=item.header, mode="skipped",
+                                            fns=[dict(fn=f_.name, mode="skipped", props=list(f_.props)) for f_ in item.fns],
+                                            lines=[0, -1], label=item.label)
+            continue
         fn_texts = []
         fn_metas = []
         imp = None
